@@ -21,8 +21,9 @@ import os
 
 from vlib import core, corr
 from props import c05_tlsmsg
+from props import c05_paths
 
-GENERATORS = ["c05_tables", "c05_tls"]
+GENERATORS = ["c05_tables", "c05_tls", "c05_paths"]
 DEPENDS = ["Frames", "ConnRecv", "FramesP", "ConnRecvP", "C05Tables(gen)", "StreamRecv", "RangeSet", "Base", "Tok", "C05",
            "TlsParse", "TlsRecv", "TlsParseP", "TlsRecvP", "TlsSitesP", "C05Tls(gen)", "TlsDispatch(gen)", "Codec", "TlsCodec",
            "ConnDgram", "ConnDgramP", "ConnClose", "ConnCloseP", "AfterCloseP", "Header", "HeaderProofs", "Varint", "Builder",
@@ -350,8 +351,9 @@ class Lab:
                 p.pump(subj)
                 p.run_until_idle()
             self.puppet = sim.Puppet(p, as_side=peer)
-            self.puppet.mute_real()
-            p.network.isolated.add(peer)
+            if not spec.get("live"):          # "live": the real peer stays on the network (path games: NAT rebinding)
+                self.puppet.mute_real()
+                p.network.isolated.add(peer)
             if state == "closing":
                 subj.close(error_code=0, reason_phrase="bye")
                 p.pump(subj)
@@ -359,6 +361,7 @@ class Lab:
                 self.puppet.send_frames("1rtt", [b"\x1d" + varint(0) + varint(0)])
         self.subject = self.pair.endpoint(side)
         self.peer = self.pair.endpoint(peer)
+        self.pg = None               # c05_paths.Game, created by the first path-game op
 
     # -- what the subject did ------------------------------------------------------------
     def raised(self):
@@ -392,6 +395,8 @@ class Lab:
     def apply(self, op):
         k = op[0]
         p = self.pair
+        if c05_paths.apply(self, op):      # path games: "path" / "rebind" / "peer"
+            return
         if k == "dg":
             p.deliver_now(bytes.fromhex(op[1]), self.peer_addr(), self.subject)
         elif k == "dgx":
@@ -630,6 +635,10 @@ def judge(lab):
         code = f.get("error_code")
         if f.get("transport") and code is not None and not valid_close_code(code):
             probs.append(("close with error code 0x%x outside QuicErrorCode" % code, {"rule": "close_code", "code": code}))
+    if getattr(lab, "pg", None) is not None:
+        lab.pg.check_table("at the end")
+        for rule, what in lab.pg.problems:
+            probs.append((what + " [%s %s]" % (lab.side, lab.state), {"rule": "path_table", "what": rule}))
     return probs
 
 
@@ -1974,6 +1983,15 @@ def run(ctx):
     run_ack_games(ctx, rng, ctx.n(120, 1600), stats, report)
     phase("ack games")
 
+    # 3c. network-path table games: many source addresses, validations, promotion back, then one more packet
+    pt = corr.Suite(ctx, "paths", "exec_paths", path_tie_encode, path_tie_impl, None,
+                    lambda c: c["ops"], lambda c, ops: dict(c, ops=ops),
+                    nontrivial=lambda c, out: len(out) > 12,
+                    opname=lambda o: o[0] + (":" + o[2] if o[0] == "path" else ""))
+    pt.oracle = once(oracle)
+    run_path_games(ctx, rng, ctx.n(96, 1500), stats, report, pt)
+    phase("path games")
+
     # 4. (c) hostile TLS
     run_tls(ctx, rng, stats, report)
 
@@ -1987,7 +2005,7 @@ def run(ctx):
     extra = {"volume": {k: (dict(v) if isinstance(v, collections.Counter) else v) for k, v in stats.items()},
              "packets_total": stats["datagrams"] + stats["protected_packets"] + stats["tls_messages"]}
     cov = corr.merge_coverage(
-        [fr, hd, tm, cl, dg],
+        [fr, hd, tm, cl, dg, pt],
         "frames: grammar-generated payloads (every frame type x boundary values x truncation at every byte x repetition x "
         "unknown types) in protected packets to client/server in connected / key-updated / handshake states, state snapshot "
         "taken from the real connection; header: header-grammar datagrams against the decision function; distinct = distinct "
@@ -2140,6 +2158,75 @@ def run_ack_games(ctx, rng, n, stats, report):
         probs = judge(lab)
         if probs:
             report(probs, {"spec": sp, "ops": ops}, "ack-games")
+
+
+def gen_path_cases(rng, n):
+    """path-game cases: directed histories (n validated / unvalidated / alternately validated migrations for n around
+    MAX_NETWORK_PATHS, then a packet from a never-seen address), then random ones over 2, 7, 8, 9, 12, 20 addresses; puppet worlds
+    and live worlds (the real peer rebinding)"""
+    combos = [("server", "connected"), ("client", "connected"), ("server", "keyupdated"), ("client", "keyupdated")]
+    cases = []
+    for i, (name, ops) in enumerate(c05_paths.directed_histories()):
+        # every directed history on a server; the validated ones on every subject kind
+        for side, state in (combos if name.startswith("validated") else combos[:1 + (i % 2)]):
+            cases.append({"spec": spec(side, state, 700 + (i % 3)), "ops": ops, "name": name})
+    sizes = [2, 7, 8, 9, 12, 20]
+    for i in range(n):
+        side, state = combos[i % len(combos)]
+        na = sizes[(i // len(combos)) % len(sizes)]
+        live = (i % 7 == 3)
+        sp = spec(side, state, 710 + rng.randrange(4))
+        if live:
+            sp["live"] = True
+        ops = c05_paths.gen_history(rng, na, rng.randint(na, 3 * na + 4), side, live=live)
+        # one more packet from a never-seen address, then traffic from the home address, timers
+        if not live:
+            ops.append(["path", na + 1, rng.choice(["bigping", "ping", "probe", "pad"]), {"nopump": True} if rng.random() < 0.2 else {}])
+            ops.append(["path", 0, "bigping", {}])
+        else:
+            ops += [["rebind", na + 1], ["peer", "data", 0.3, 300], ["rebind", 0], ["peer", "ping", 0.3]]
+        ops.append(["adv", rng.choice([0.03, 0.5])])
+        cases.append({"spec": sp, "ops": ops, "name": "random/%s/%s/%d%s" % (side, state, na, "/live" if live else "")})
+    return cases
+
+
+def path_tie_encode(case):
+    return c05_paths.tie_observe(case, Lab)[0]
+
+
+def path_tie_impl(case):
+    return c05_paths.tie_observe(case, Lab)[1]
+
+
+def run_path_games(ctx, rng, n, stats, report, suite):
+    """(g) network-path table built up by long histories of migrations and validations, then one more packet
+    (harness/props/c05_paths.py).  Every world is judged by the no-raise oracle + the table oracle (suite.oracle, minimised
+    replay) and compared call by call with coq/model/ConnPaths.v (exec_paths)."""
+    cases = [dict(c, name=c.get("name", "corpus")) for c in corr.load_corpus("C05", "paths")] + gen_path_cases(rng, n)
+    hist = collections.Counter()
+    for c in cases:
+        hist[c["name"] if c["name"].startswith("random") else ("corpus" if c["name"] == "corpus" else "directed")] += 1
+    stats["path_games"] = dict(hist)
+    stats["path_worlds"] = len(cases)
+    stats["worlds"] += len(cases)
+    try:
+        for i in range(0, len(cases), 100):
+            suite.run(cases[i:i + 100])
+        stats["path_tie"] = "compared"
+    except core.BuildError as e:
+        # no extracted model (the generated file / the model no longer builds): the oracle alone searches for a failing input
+        stats["path_tie"] = "model unavailable: %s" % (str(e)[:200],)
+        for c in cases:
+            _, probs = run_ops(c)
+            if probs:
+                report(probs, c, "path-games:" + c["name"])
+    pk = 0
+    reached = collections.Counter()
+    for v in c05_paths._TIE.values():
+        pk += v[2]
+    stats["path_packets_recorded"] = pk
+    stats["protected_packets"] += sum(1 for c in cases for op in c["ops"] if op[0] == "path")
+    c05_paths._TIE.clear()
 
 
 def run_retry(ctx, rng, stats, report):
